@@ -146,6 +146,12 @@ func verifRunDev(model string, sc *vfsim.Scenario, isCompare bool, checkBanner b
 	if checkBanner {
 		cfg.CheckBanner = regexp.MustCompile("NetSPoC")
 	}
+	// The log directory is optional (drc without -L).
+	logArg := r.logDir
+	if vf.Bool("run without log directory") {
+		logArg = ""
+		vf.Cover("run without log directory")
+	}
 	r.dev = vfsim.NewDevice(sc)
 	if vf.Symbolic() {
 		vf.Hook("expect.send", r.dev.Send)
@@ -160,7 +166,7 @@ func verifRunDev(model string, sc *vfsim.Scenario, isCompare bool, checkBanner b
 	}
 	r.stderr = vf.CaptureStderr(func() {
 		r.stdout = vf.CaptureStdout(func() {
-			r.rc = ApproveOrCompare(isCompare, path.Join(codeDir, "router"), cfg, r.logDir, "", false)
+			r.rc = ApproveOrCompare(isCompare, path.Join(codeDir, "router"), cfg, logArg, "", false)
 		})
 	})
 	return r
@@ -284,8 +290,12 @@ func VerifUnmanagedASA() {
 	})
 }
 
+// Hostnames a reached device may report: the expected one, an unrelated
+// one, the expected one as proper prefix / suffix, different case.
+var verifHostnames = []string{"router", "other", "router2", "lab-router", "Router", "rout"}
+
 func verifUnmanaged(model string, changes []string, spoc string, mk func(host string, banner bool) *vfsim.Scenario) {
-	host := vf.FixString(vf.Pick("reportedHostname", []string{"router", "other", "router2"}))
+	host := vf.FixString(vf.Pick("reportedHostname", verifHostnames))
 	banner := vf.Bool("bannerPresent")
 	checkBanner := vf.Bool("checkbannerConfigured")
 	sc := mk(host, banner)
